@@ -16,5 +16,9 @@ for name in P.MC:
     print("MC", name, "ok" if r["ok"] else "FAILED", r["distinct"], "distinct states", r["wall_s"], "s")
     if not r["ok"]:
         sys.exit(1)
+p = E.run_apalache()
+print("Apalache", p["discharged"], "/", p["obligations"], "obligations")
 PY
+# AddressSanitizer build of the harness (nightly toolchain; C05)
+(cd harness && RUSTFLAGS="-Zsanitizer=address --cfg griddle_verif --check-cfg cfg(griddle_verif)" cargo +nightly build --release --offline --target x86_64-unknown-linux-gnu --target-dir target-asan 2>&1 | tail -1) || echo "ASan build unavailable"
 echo setup done
